@@ -20,8 +20,12 @@ func init() {
 		repeatedVariationCases(c)
 		commandTextCases(c)
 		rerunCases(c)
+		conditionHistoryCases(c)
 	}
-	props["C07"] = func(c *Collector, tier string, seed int64) { runRunnerProp(c, "C07", tier, seed) }
+	props["C07"] = func(c *Collector, tier string, seed int64) {
+		runRunnerProp(c, "C07", tier, seed)
+		statusHistoryCases(c)
+	}
 }
 
 // result of one command: exit status n (0 = success), fault (timeout), norender (undefined template variable)
@@ -621,6 +625,121 @@ func commandTextCases(col *Collector) {
 
 // the same Task value run again after a run that failed (a watcher re-runs its task, stages share a task): the
 // second run is judged on its own commands, not on what the first one left on the task
+// a condition is evaluated for EVERY run: one runner, a guard (`test -f marker`) whose answer changes between the
+// runs - the same task again, and a second task with the same guard text
+func conditionHistoryCases(col *Collector) {
+	for variant := 0; variant < 4; variant++ {
+		trace := newTracePath()
+		marker := trace + ".marker"
+		mk := func(name string) *task.Task {
+			t := task.NewTask()
+			t.Name = name
+			t.Condition = fmt.Sprintf("test -f %s", marker)
+			t.Before = []string{fmt.Sprintf("echo %s.b >> %s", name, trace)}
+			t.Commands = []string{fmt.Sprintf("echo %s.1 >> %s", name, trace), fmt.Sprintf("echo %s.2 >> %s", name, trace)}
+			t.After = []string{fmt.Sprintf("echo %s.a >> %s", name, trace)}
+			return t
+		}
+		first, second := mk("g"), mk("g")
+		if variant%2 == 1 {
+			second = mk("h") // another task, the same guard
+		} else {
+			second = first
+		}
+		startsWithMarker := variant >= 2
+		cs := Case{Replay: fmt.Sprintf("one runner; condition `test -f marker`; marker present at first=%v, toggled before the second run, toggled back before a third; second run by %s",
+			startsWithMarker, map[bool]string{true: "the same task", false: "another task with the same condition"}[second == first]), Tags: []string{"condition-history"}, NonTrivial: true}
+		r, err := runner.NewTaskRunner()
+		if err != nil {
+			cs.Fail, cs.Sig = err.Error(), "runner-panic"
+			col.Add(cs)
+			continue
+		}
+		r.Stdout, r.Stderr = devNull{}, devNull{}
+		present := startsWithMarker
+		set := func(p bool) {
+			if p {
+				os.WriteFile(marker, nil, 0644)
+			} else {
+				os.Remove(marker)
+			}
+		}
+		var got, want []string
+		for i, t := range []*task.Task{first, second, first} {
+			set(present)
+			os.Remove(trace)
+			err := r.Run(t)
+			got = append(got, fmt.Sprintf("%d:%s/skipped=%v/err=%v", i, strings.Join(readTrace(trace), ","), t.Skipped, err != nil))
+			w := ""
+			if present {
+				w = fmt.Sprintf("%s.b,%s.1,%s.2,%s.a", t.Name, t.Name, t.Name, t.Name)
+			}
+			want = append(want, fmt.Sprintf("%d:%s/skipped=%v/err=false", i, w, !present))
+			present = !present
+		}
+		os.Remove(trace)
+		os.Remove(marker)
+		cs.Impl = strings.Join(got, " | ")
+		if cs.Impl != strings.Join(want, " | ") {
+			cs.Fail, cs.Sig = fmt.Sprintf("runs gave %s, expected %s", cs.Impl, strings.Join(want, " | ")), "c06-trace"
+		}
+		col.Add(cs)
+	}
+}
+
+// C07 over a history: what a task reports after a run is the outcome of THAT run - one task object run four
+// times on one runner: failing (exit 3), succeeding, skipped by its condition, succeeding again
+func statusHistoryCases(col *Collector) {
+	for _, allow := range []bool{false, true} {
+		trace := newTracePath()
+		fail, skip := trace+".fail", trace+".skip"
+		t := task.NewTask()
+		t.Name = "hist"
+		t.AllowFailure = allow
+		t.Condition = fmt.Sprintf("test ! -f %s", skip)
+		t.Commands = []string{fmt.Sprintf("echo c1 >> %s", trace), fmt.Sprintf("if [ -f %s ]; then exit 3; fi", fail), fmt.Sprintf("echo c3 >> %s", trace)}
+		cs := Case{Replay: fmt.Sprintf("one task run four times on one runner: second command exits 3 / succeeds / condition false / succeeds; allow_failure=%v", allow), Tags: []string{"status-history"}, NonTrivial: true}
+		r, err := runner.NewTaskRunner()
+		if err != nil {
+			cs.Fail, cs.Sig = err.Error(), "runner-panic"
+			col.Add(cs)
+			continue
+		}
+		r.Stdout, r.Stderr = devNull{}, devNull{}
+		var got, want []string
+		for i, mode := range []string{"fail", "ok", "skip", "ok"} {
+			os.Remove(fail)
+			os.Remove(skip)
+			os.Remove(trace)
+			switch mode {
+			case "fail":
+				os.WriteFile(fail, nil, 0644)
+			case "skip":
+				os.WriteFile(skip, nil, 0644)
+			}
+			err := r.Run(t)
+			got = append(got, fmt.Sprintf("%d:%s err=%v errored=%v skipped=%v exit=%d", i, strings.Join(readTrace(trace), ","), err != nil, t.Errored, t.Skipped, t.ExitCode))
+			switch {
+			case mode == "fail" && !allow:
+				want = append(want, fmt.Sprintf("%d:c1 err=true errored=true skipped=false exit=3", i))
+			case mode == "skip":
+				// a skipped run records no exit status: the field keeps what it held (0 after the successful run)
+				want = append(want, fmt.Sprintf("%d: err=false errored=false skipped=true exit=0", i))
+			default:
+				want = append(want, fmt.Sprintf("%d:c1,c3 err=false errored=false skipped=false exit=0", i))
+			}
+		}
+		os.Remove(fail)
+		os.Remove(skip)
+		os.Remove(trace)
+		cs.Impl = strings.Join(got, " | ")
+		if cs.Impl != strings.Join(want, " | ") {
+			cs.Fail, cs.Sig = fmt.Sprintf("runs reported %s, expected %s", cs.Impl, strings.Join(want, " | ")), "c07-stale-status"
+		}
+		col.Add(cs)
+	}
+}
+
 func rerunCases(col *Collector) {
 	for _, allow := range []bool{false, true} {
 		trace := newTracePath()
